@@ -9,6 +9,7 @@ import (
 
 	"github.com/biscuit-auth/biscuit-go/v2/datalog"
 
+	"verif/internal/refdl"
 	rx "verif/internal/refexpr"
 )
 
@@ -204,4 +205,59 @@ func (s *Syms) Expr(ops []rx.Op) datalog.Expression {
 		}
 	}
 	return out
+}
+
+// Pred converts a harness atom to a library predicate.
+func (s *Syms) Pred(a refdl.Atom) datalog.Predicate {
+	p := datalog.Predicate{Name: datalog.String(s.Index(a.Name)), Terms: make([]datalog.Term, 0, len(a.Terms))}
+	for _, t := range a.Terms {
+		p.Terms = append(p.Terms, s.Term(t))
+	}
+	return p
+}
+
+func (s *Syms) Fact(a refdl.Atom) datalog.Fact { return datalog.Fact{Predicate: s.Pred(a)} }
+
+func (s *Syms) Rule(r refdl.Rule) datalog.Rule {
+	out := datalog.Rule{Head: s.Pred(r.Head)}
+	for _, a := range r.Body {
+		out.Body = append(out.Body, s.Pred(a))
+	}
+	for _, e := range r.Exprs {
+		out.Expressions = append(out.Expressions, s.Expr(e))
+	}
+	return out
+}
+
+// BackAtom converts a library fact to a harness atom.
+func (s *Syms) BackAtom(f datalog.Fact) (refdl.Atom, error) {
+	name, ok := s.Lookup(uint64(f.Name))
+	if !ok {
+		return refdl.Atom{}, fmt.Errorf("unresolvable predicate name %d", uint64(f.Name))
+	}
+	a := refdl.Atom{Name: name}
+	for _, t := range f.Terms {
+		v, err := s.Back(t)
+		if err != nil {
+			return a, err
+		}
+		a.Terms = append(a.Terms, v)
+	}
+	return a, nil
+}
+
+// BackSet converts a library fact set.
+func (s *Syms) BackSet(fs *datalog.FactSet) (refdl.Set, int, error) {
+	out := refdl.Set{}
+	dups := 0
+	for _, f := range *fs {
+		a, err := s.BackAtom(f)
+		if err != nil {
+			return nil, 0, err
+		}
+		if !out.Add(a) {
+			dups++
+		}
+	}
+	return out, dups, nil
 }
